@@ -219,8 +219,14 @@ def _check_normal(E, c, fr, prop, fname, st, env, val, entry, label):
         props, _txt = calls.clause_props(e)
         if props is not None and prop not in props:
             continue
-        g = E.spec_bool(e, st, env2, entry, fr)
         ob = E.obl("%s.%s.post.%d" % (prop, fname, i), "post", e)
+        try:
+            g = E.spec_bool(e, st, env2, entry, fr)
+        except SpecError as ex:
+            # the clause cannot even be evaluated in this exit state (e.g. it indexes a list the code has emptied):
+            # the postcondition is not established on this path
+            ob.add(st.pc, z3.BoolVal(False), note="postcondition not evaluable in the exit state: %s" % ex)
+            continue
         ob.add(st.pc, _excl(E, ob.name, g, entry, env, fr), note=label)
     _check_frame(E, c, c.modifies, fr, prop, fname, st, env, entry, "frame")
 
@@ -291,9 +297,9 @@ def _check_frame(E, c, mods, fr, prop, fname, st, env, entry, kindname):
                 allowed.setdefault(E.lkey(base.kind[1]), []).append(base.t)
             else:
                 kk = base.kind[1]
-                allowed.setdefault("DK|%s" % (kk,), []).append(base.t)
+                allowed.setdefault("DK|%s|%s" % (kk, base.kind[2]), []).append(base.t)
                 allowed.setdefault("DT|%s|%s" % (kk, base.kind[2]), []).append(base.t)
-                allowed.setdefault("DO|%s" % (kk,), []).append(base.t)
+                allowed.setdefault("DO|%s|%s" % (kk, base.kind[2]), []).append(base.t)
                 for k in alts(base.kind[2]):
                     if k.tag != "none":
                         allowed.setdefault(E.dvals_key(base, k), []).append(base.t)
